@@ -38,7 +38,7 @@ func (g *c02Gen) list(depth, max int) []*pNode {
 
 func (g *c02Gen) node(depth int) *pNode {
 	g.budget--
-	kinds := 10
+	kinds := 11
 	if depth == 0 {
 		kinds = 2 // leaves only at the maximum depth
 	}
@@ -73,6 +73,8 @@ func (g *c02Gen) node(depth int) *pNode {
 		return &pNode{kind: 7, name: c02Names[verifChoose(2)], body: g.list(depth-1, 1)}
 	case 8:
 		return &pNode{kind: 8, body: g.list(depth-1, 2)}
+	case 10:
+		return &pNode{kind: 10, name: c02Names[verifChoose(2)], body: g.list(depth-1, 1)}
 	}
 	g.spec++ // (variety without a further fork)
 	return &pNode{kind: 9, text: []string{"{sp}", "{lb}", "{literal}{x}{/literal}", "{css c}", "{log}L{/log}", "{msg desc=\"d\"}m{/msg}"}[(g.spec+g.budget)%6]}
@@ -93,7 +95,7 @@ func c02Src(ns []*pNode) string {
 			}
 			s += "{/if}"
 		case 3:
-			s += "{foreach $i in $l}" + c02Src(n.body) + "{if isLast($i)}.{/if}"
+			s += "{foreach $i in $l}" + c02Src(n.body) + "{$i}{if isLast($i)}.{/if}"
 			if n.has {
 				s += "{ifempty}e"
 			}
@@ -118,7 +120,9 @@ func c02Src(ns []*pNode) string {
 		case 7:
 			s += "{switch $" + n.name + "}{case 'p', true}" + c02Src(n.body) + "{default}d{/switch}"
 		case 8:
-			s += "{for $i in range(2)}" + c02Src(n.body) + "{/for}"
+			s += "{for $i in range(2)}" + c02Src(n.body) + "{$i}{/for}"
+		case 10:
+			s += "{if $" + n.name + "}{if $b}{if $l}" + c02Src(n.body) + "{/if}{/if}{/if}"
 		case 9:
 			s += n.text
 		}
@@ -202,6 +206,10 @@ func (e *c02Env) run(ns []*pNode) {
 				e.push()
 				e.set("i", item)
 				e.run(n.body)
+				if e.failed {
+					return
+				}
+				e.out = append(e.out, item.String()...)
 				if idx == len(l)-1 {
 					e.out = append(e.out, '.')
 				}
@@ -277,6 +285,19 @@ func (e *c02Env) run(ns []*pNode) {
 				e.push()
 				e.set("i", data.Int(idx))
 				e.run(n.body)
+				if e.failed {
+					return
+				}
+				e.out = append(e.out, byte('0'+idx))
+				e.pop()
+			}
+		case 10:
+			lv, _ := e.lookup("l")
+			if e.truthy(n.name) && e.truthy("b") && refTruthy(lv) {
+				e.push()
+				e.push()
+				e.block(n.body)
+				e.pop()
 				e.pop()
 			}
 		case 9:
